@@ -5,5 +5,5 @@ CONSTANTS
   Schema <- SchemaDef
   InvalidNames = {"1x"}
   MaxSuffix = 3
-  KF = {"F7", "F18"}
+  KF = {"F7"}
   NM = 2
